@@ -18,6 +18,36 @@ type propMeta struct {
 var libReal = []string{"lexer", "parser", "ast", "compiler (evalfilter.go, compiler.go)", "vm (incl. optimizer)", "environment (built-ins, scopes)", "object", "stack", "code"}
 
 var props = map[string]*propMeta{
+	"C20": {
+		level: "exploration", driver: true, quickBudget: 120, thoroughBudget: 1800, stall: 40,
+		rule: "(a) API histories: generated orders of SetVariable / AddFunction (14 result kinds incl. void, null, panic; 0-5 arguments, nested calls) / SetContext / Prepare (repeated) / Run / Execute / GetVariable on three evaluators fed identically (optimized+Execute, NoOptimize+Execute, optimized+Run) for straight-line probe scripts whose meaning an independent reference evaluator computes: result, failure, host-call trace with printed arguments in order, every variable afterwards, Run = truth of Execute. " +
+			"(b) the real cmd/evalfilter logic, one process per scenario, with file reads, the -timeout timer and exit behind seams: sub-command x flag combination x script table, JSON documents torn at EVERY byte offset, read errors (ENOENT/EISDIR/EIO), bit flips, empty / non-object / invalid-UTF-8 / out-of-range documents, looping scripts under simulated deadlines; `run` must report the type, printed value and truth (or the error text) that the library's Execute gives on the document the harness decoded itself under the same simulated deadline; every sub-command exits 0 without the top-level panic handler firing. A sample of fault-free scenarios is replayed on the shipped binary with real files (byte-identical stdout). " +
+			"Non-trivial = a run/fault actually happened (API) or a fault/deadline was injected (driver); distinct = distinct digests of (script, history or scenario, outcomes).",
+		exhaustivePart: "torn-read offsets of the JSON documents; sub-command x flags x script table",
+		real:           append(append([]string{}, libReal...), "cmd/evalfilter (all four sub-commands), github.com/skx/subcommands, flag, encoding/json, process exit status, stdout"),
+		stub:           []string{"file reads of the driver (in-memory file system with faults)", "the -timeout timer (simulated clock, 1 tick = 1 us)", "context.Context in API histories", "host functions"},
+		assumptions: []string{
+			"the reference evaluator covers straight-line scripts (literals, variables, fields, host calls, integer + and ==); value-returning host functions are never used in statement position (that leaves stack residue, a pure-semantics matter outside C20)",
+			"the driver's wording is not constrained: containment of type, printed value, truth or error text is checked",
+			"invalid flags / unknown sub-commands (exit status 1 inside the subcommands dependency) are not generated",
+		},
+	},
+	"C19": {
+		level: "exploration", quickBudget: 100, thoroughBudget: 1500, stall: 15,
+		rule: "A case = (script rich in hash literals incl. keys whose printed forms coincide and duplicate keys, keys(), foreach over hashes, string()/sprintf of containers, several functions; 1-3 host objects with nested maps; optimizer flag) executed as Prepare, runs, second Prepare, one more run. " +
+			"It is executed under the canonical ascending order of every map the library ranges over (7 sites found by the rewriter), again under the same order on a fresh evaluator (other addresses), then under descending order, two rotations, two seeded per-call shuffles and ALL 23 non-identity permutations (exhaustive for maps of <= 4 entries), and twice under Go's native randomised order. " +
+			"Compared: the prepared program as Dump prints it (constants with types, main bytecode, functions sorted by name), every result, host-call trace, final variables, the program and the result after the second Prepare. A divergence is attributed to a single map-range site when varying that site alone reproduces it. " +
+			"Non-trivial = at least one map with >= 2 keys was actually iterated under a non-canonical order; distinct = distinct digests of (script, program, results, traces, variables).",
+		exhaustivePart: "all 24 orders of every map with <= 4 entries, per case (same permutation index at every site)",
+		real:           libReal,
+		stub:           []string{"map iteration order at the rewritten range sites and reflect MapKeys calls", "context.Context (hard cap only)", "host functions (trace)", "stdout of the library (captured; Dump is read from it)"},
+		assumptions: []string{
+			"now()/time()/getenv() are not generated (the property exempts them)",
+			"map-range sites the rewriter cannot see are only covered by the two native-order executions per case",
+			"the order in which Dump lists functions is not part of the property (normalised)",
+			"cross-process identity is checked by the determinism self-test (fresh processes must reproduce the digests of program, results and traces)",
+		},
+	},
 	"C11": {
 		level: "exploration", race: true, quickBudget: 150, thoroughBudget: 2400, stall: 30,
 		rule: "A simulated run = 1-2 shared evaluators + 2-4 tasks (caller goroutines) x 1-4 Run operations each; a quarter of the tasks instead run a whole evaluator life cycle (New, AddFunction, SetVariable, SetContext, Prepare, Run..., GetVariable) of their own. " +
